@@ -10,33 +10,39 @@
 (*   [id, line, form, nconst, arity, ntypes, caps, tids, nbuiltins,        *)
 (*    entries : <<[fi, l0, keep]>>,    wrapper functions (REPL lines) and   *)
 (*                                     the locals they start with          *)
-(*    fns : <<[fi, code : <<[op, a]>>]>>]   position k holds function k-1  *)
+(*    fns : << code >>]   position k holds function k-1;                   *)
+(*                        code = << <<op, a>>, .. >> (see VMSem)           *)
 (*                                                                         *)
 (* One behaviour per ANALYSIS ITEM <<image, function, entry locals>>:      *)
 (* every function starts with l0 = its captures; a wrapper function starts *)
 (* with the variables bound by the earlier lines of its session.           *)
-(* The state is the analysis state of the item:                            *)
-(*   H[pc+1] = operand height on entry to pc (relative to the frame:       *)
-(*             entry 1 = the argument), -1 = not reached;  pc = len is the *)
-(*             function's exit;                                            *)
-(*   L[pc+1] = number of locals defined on ALL paths reaching pc (minimum) *)
-(*   work    = pcs whose out-edges still have to be propagated.            *)
-(* One TLC step propagates up to Grain work-list items (Grain = 1: one     *)
-(* instruction per state; the default is the whole function per step, one  *)
-(* state per function).  The first rule an item breaks is recorded in err  *)
-(* and the behaviour stops; the invariants below are the C07 clauses.      *)
+(*                                                                         *)
+(* The state is the analysis state of the item.  Abstract values are pairs *)
+(* <<h, l>>: h = operand height on entry to a pc, relative to the frame    *)
+(* (entry: 1 = the argument); l = number of locals defined on ALL paths    *)
+(* reaching the pc (the minimum over the paths -- the COUNT may differ     *)
+(* between paths, only definedness is judged).  A pc that is not the       *)
+(* target of a jump has exactly one predecessor, so its abstract value     *)
+(* needs no storage: the map M holds <<h, l>> only at the LABELS (pc 0,    *)
+(* every jump target, and the exit pc = len), <<-1, -1>> = not reached;    *)
+(* cur is the abstract value being carried through straight-line code;     *)
+(* work = labels whose out-paths still have to be (re)walked (again when l *)
+(* decreased).  One TLC step propagates Grain instructions.  The first     *)
+(* rule an item breaks is recorded in err and the behaviour stops; the     *)
+(* invariants at the end are the C07 clauses.                              *)
 (***************************************************************************)
 EXTENDS VMSem, FiniteSets, TLC, Json, IOUtils
 
 CONSTANT Grain
 
-VARIABLES it,    \* <<image index, function position (fi + 1), entry locals>>
-          ph,    \* "new" | "run" | "done"
-          H, L, work,
-          err,   \* <<>> or <<[rule, pc, h, l, x]>>
-          stat   \* [steps, joins, ldiff, tails, branch]  coverage counters of this item
-
-vars == <<it, ph, H, L, work, err, stat>>
+VARIABLE st   \* one record:
+  \* it   : <<image index, function position (fi + 1), entry locals>>
+  \* ph   : "root" (the single initial state, fans out to the items) | "new" | "run" | "done"
+  \* M    : label pc -> <<h, l>>
+  \* cur  : <<>> or <<pc, h, l>>
+  \* work : set of label pcs
+  \* err  : <<>> or <<[rule, pc, h, l, x]>>
+  \* stat : coverage counters of this item
 
 Imgs == ndJsonDeserialize(IOEnv.VMSTACK_IN)
 
@@ -49,105 +55,133 @@ Items(p) ==
 
 AllItems == UNION {Items(p) : p \in 1..Len(Imgs)}
 
-Code(i) == Imgs[i[1]].fns[i[2]].code
+Code(i) == Imgs[i[1]].fns[i[2]]
 
 MinOf(S) == CHOOSE x \in S : \A y \in S : x <= y
 
 Bad(rule, pc, h, l, x) == <<[rule |-> rule, pc |-> pc, h |-> h, l |-> l, x |-> x]>>
 
+Unset == <<-1, -1>>
+
+\* in-range jump targets, the entry and the exit
+Labels(code) ==
+  LET n == Len(code) IN
+    {0, n} \cup {t \in {pc + A(code[pc + 1]) + 1 : pc \in {q \in 0..(n - 1) : Op(code[q + 1]) \in {"Jump", "JumpIf"}}} :
+                   t >= 0 /\ t <= n}
+
 (***************************************************************************)
-(* Propagate the state after `pc` (height h2, locals l2) to successor s.   *)
+(* Control arrives at label s with abstract value <<h2, l2>>.              *)
 (***************************************************************************)
-Flow(S, n, s, h2, l2) ==
+Arrive(S, n, s, h2, l2) ==
   IF S.err # <<>> THEN S
-  ELSE IF s < 0 \/ s > n THEN [S EXCEPT !.err = Bad("jump_range", s, h2, l2, n)]
-  ELSE IF S.H[s + 1] = -1 THEN
-         IF s = n /\ h2 # 1 THEN [S EXCEPT !.err = Bad("exit_height", s, h2, l2, 1)]
-         ELSE [S EXCEPT !.H[s + 1] = h2, !.L[s + 1] = l2,
-                        !.work = IF s < n THEN @ \cup {s} ELSE @]
-  ELSE IF S.H[s + 1] # h2 THEN [S EXCEPT !.err = Bad("join_height", s, h2, l2, S.H[s + 1])]
+  ELSE IF s = n /\ h2 # 1 THEN [S EXCEPT !.err = Bad("exit_height", s, h2, l2, 1)]
+  ELSE IF S.M[s] = Unset
+         THEN [S EXCEPT !.M[s] = <<h2, l2>>, !.work = IF s < n THEN @ \cup {s} ELSE @]
+  ELSE IF S.M[s][1] # h2 THEN [S EXCEPT !.err = Bad("join_height", s, h2, l2, S.M[s][1])]
   ELSE LET S1 == [S EXCEPT !.stat.joins = @ + 1,
-                           !.stat.ldiff = IF S.L[s + 1] # l2 THEN @ + 1 ELSE @]
-       IN  IF l2 < S.L[s + 1]
-           THEN [S1 EXCEPT !.L[s + 1] = l2, !.work = IF s < n THEN @ \cup {s} ELSE @]
+                           !.stat.ldiff = IF S.M[s][2] # l2 THEN @ + 1 ELSE @]
+       IN  IF l2 < S.M[s][2]
+           THEN [S1 EXCEPT !.M[s] = <<h2, l2>>, !.work = IF s < n THEN @ \cup {s} ELSE @]
            ELSE S1
 
+\* control falls through to s: carried on if s is an ordinary pc, merged if it is a label
+Fall(S, n, s, h2, l2) ==
+  IF s \in DOMAIN S.M THEN Arrive([S EXCEPT !.cur = <<>>], n, s, h2, l2)
+  ELSE [S EXCEPT !.cur = <<s, h2, l2>>]
+
+\* control jumps to t
+Jump(S, n, pc, t, h2, l2) ==
+  IF S.err # <<>> THEN S
+  ELSE IF t < 0 \/ t > n THEN [S EXCEPT !.err = Bad("jump_range", pc, h2, l2, t)]
+  ELSE Arrive(S, n, t, h2, l2)
+
 (***************************************************************************)
-(* Propagate one work-list item (the lowest pc) through its instruction.   *)
+(* Propagate one instruction: the carried value, or else the lowest label  *)
+(* of the work-list.                                                       *)
 (***************************************************************************)
-StepOne(S, code, T) ==
+StepOne(S, code, T, selfcaps) ==
   LET n  == Len(code)
-      pc == MinOf(S.work)
+      fromWork == S.cur = <<>>
+      pc == IF fromWork THEN MinOf(S.work) ELSE S.cur[1]
+      h  == IF fromWork THEN S.M[pc][1] ELSE S.cur[2]
+      l  == IF fromWork THEN S.M[pc][2] ELSE S.cur[3]
       I  == code[pc + 1]
-      h  == S.H[pc + 1]
-      l  == S.L[pc + 1]
-      S0 == [S EXCEPT !.work = @ \ {pc}, !.stat.steps = @ + 1,
-                      !.stat.tails = IF I.op = "TailCall" THEN @ \cup {pc} ELSE @,
-                      !.stat.branch = @ \/ I.op \in {"JumpIf", "Call", "TailCall", "Spawn", "Select"}]
-  IN  IF ~IndexOK(I, T) THEN [S0 EXCEPT !.err = Bad("index_range", pc, h, l, I.a)]
-      ELSE IF ~OperandOK(I) THEN [S0 EXCEPT !.err = Bad("operand", pc, h, l, I.a)]
-      ELSE IF h < Needs(I, T) THEN [S0 EXCEPT !.err = Bad("underflow", pc, h, l, Needs(I, T))]
-      ELSE IF I.op = "TailCall" /\ h # Needs(I, T)
-             THEN [S0 EXCEPT !.err = Bad("tailcall_height", pc, h, l, Needs(I, T))]
-      ELSE IF I.op = "Load" /\ ~LocalsOK(I, l) THEN [S0 EXCEPT !.err = Bad("load_undefined", pc, h, l, I.a)]
-      ELSE IF I.op = "Reset" /\ ~LocalsOK(I, l) THEN [S0 EXCEPT !.err = Bad("reset_range", pc, h, l, I.a)]
+      S0 == [M |-> S.M, cur |-> <<>>, work |-> IF fromWork THEN S.work \ {pc} ELSE S.work,
+             err |-> <<>>,
+             stat |-> IF Op(I) = "TailCall"
+                        THEN [S.stat EXCEPT !.steps = @ + 1, !.tails = @ \cup {pc}]
+                        ELSE [S.stat EXCEPT !.steps = @ + 1]]
+  IN  IF ~IndexOK(I, T) THEN [S0 EXCEPT !.err = Bad("index_range", pc, h, l, A(I))]
+      ELSE IF ~OperandOK(I) THEN [S0 EXCEPT !.err = Bad("operand", pc, h, l, A(I))]
+      ELSE LET need == Needs(I, T) IN
+      IF h < need THEN [S0 EXCEPT !.err = Bad("underflow", pc, h, l, need)]
+      ELSE IF Op(I) = "TailCall" /\ h # need
+             THEN [S0 EXCEPT !.err = Bad("tailcall_height", pc, h, l, need)]
+      ELSE IF Op(I) = "Load" /\ ~LocalsOK(I, l) THEN [S0 EXCEPT !.err = Bad("load_undefined", pc, h, l, A(I))]
+      ELSE IF Op(I) = "Reset" /\ ~LocalsOK(I, l) THEN [S0 EXCEPT !.err = Bad("reset_range", pc, h, l, A(I))]
       ELSE LET h2 == h + Delta(I, T)
                l2 == LocalsAfter(I, l)
-               ss == Succs(I, pc)
-           IN  IF Len(ss) = 0 THEN S0
-               ELSE IF Len(ss) = 1 THEN Flow(S0, n, ss[1], h2, l2)
-               ELSE Flow(Flow(S0, n, ss[1], h2, l2), n, ss[2], h2, l2)
+           IN  CASE Op(I) = "Jump"   -> Jump(S0, n, pc, pc + A(I) + 1, h2, l2)
+                 [] Op(I) = "JumpIf" -> Jump(Fall(S0, n, pc + 1, h2, l2), n, pc, pc + A(I) + 1, h2, l2)
+                 \* TailCall(true) restarts this frame: height 1 (the argument), locals cut back
+                 \* to the captures; TailCall(false) leaves for another function
+                 [] Op(I) = "TailCall" -> IF A(I) = 1 THEN Arrive(S0, n, 0, h2, selfcaps) ELSE S0
+                 [] OTHER -> Fall(S0, n, pc + 1, h2, l2)
 
-RECURSIVE Run(_, _, _, _)
-Run(S, code, T, k) ==
-  IF k = 0 \/ S.work = {} \/ S.err # <<>> THEN S
-  ELSE Run(StepOne(S, code, T), code, T, k - 1)
+RECURSIVE Run(_, _, _, _, _)
+Run(S, code, T, selfcaps, k) ==
+  IF k = 0 \/ (S.work = {} /\ S.cur = <<>>) \/ S.err # <<>> THEN S
+  ELSE Run(StepOne(S, code, T, selfcaps), code, T, selfcaps, k - 1)
+
+Stat0 == [steps |-> 0, joins |-> 0, ldiff |-> 0, tails |-> {}]
 
 Start(i) ==
-  LET n == Len(Code(i)) IN
-    [H    |-> [j \in 1..(n + 1) |-> IF j = 1 THEN 1 ELSE -1],
-     L    |-> [j \in 1..(n + 1) |-> IF j = 1 THEN i[3] ELSE -1],
-     work |-> IF n > 0 THEN {0} ELSE {},
-     err  |-> IF Imgs[i[1]].tids[i[2]] >= Imgs[i[1]].ntypes
-                THEN Bad("type_index", 0, 1, i[3], Imgs[i[1]].tids[i[2]]) ELSE <<>>,
-     stat |-> [steps |-> 0, joins |-> 0, ldiff |-> 0, tails |-> {}, branch |-> FALSE]]
+  LET code == Code(i)
+      n == Len(code)
+      P == Imgs[i[1]]
+  IN  [M    |-> [t \in Labels(code) |-> IF t = 0 THEN <<1, i[3]>> ELSE Unset],
+       cur  |-> <<>>,
+       work |-> IF n > 0 THEN {0} ELSE {},
+       err  |-> IF P.tids[i[2]] < 0 \/ P.tids[i[2]] >= P.ntypes
+                  THEN Bad("type_index", 0, 1, i[3], P.tids[i[2]]) ELSE <<>>,
+       stat |-> Stat0]
 
 Where(i) == [id |-> Imgs[i[1]].id, line |-> Imgs[i[1]].line, form |-> Imgs[i[1]].form,
              img |-> i[1], fi |-> i[2] - 1, l0 |-> i[3]]
 
-Init == /\ it \in AllItems
-        /\ ph = "new" /\ H = <<>> /\ L = <<>> /\ work = {} /\ err = <<>>
-        /\ stat = [steps |-> 0, joins |-> 0, ldiff |-> 0, tails |-> {}, branch |-> FALSE]
+Init == st = [it |-> CHOOSE i \in AllItems : TRUE, ph |-> "root", M |-> <<>>, cur |-> <<>>,
+              work |-> {}, err |-> <<>>, stat |-> Stat0]
+
+\* one step of the analysis of item s.it; written as ONE expression so that TLC evaluates the
+\* run once (LET definitions at action level are re-evaluated at every use)
+Advance(s) ==
+  LET i  == s.it
+      S0 == IF s.ph = "new" THEN Start(i)
+            ELSE [M |-> s.M, cur |-> s.cur, work |-> s.work, err |-> s.err, stat |-> s.stat]
+      S  == Run(S0, Code(i), Imgs[i[1]], Imgs[i[1]].caps[i[2]], Grain)
+      fin == (S.work = {} /\ S.cur = <<>>) \/ S.err # <<>>
+      r  == [it |-> i, ph |-> IF fin THEN "done" ELSE "run", M |-> S.M, cur |-> S.cur,
+             work |-> S.work, err |-> S.err, stat |-> S.stat]
+  IN  IF ~fin THEN r
+      ELSE IF S.err # <<>>
+        THEN IF PrintT(<<"VIOL", ToJson(Where(i) @@ S.err[1] @@
+                        [op |-> IF S.err[1].pc < Len(Code(i)) /\ S.err[1].pc >= 0
+                                THEN Op(Code(i)[S.err[1].pc + 1]) ELSE "exit"])>>) THEN r ELSE r
+        ELSE IF PrintT(<<"STAT", i[1], i[2] - 1, S.stat.steps, S.stat.joins, S.stat.ldiff,
+                         Cardinality(S.stat.tails)>>) THEN r ELSE r
 
 Next ==
-  /\ ph # "done"
-  /\ LET S0 == IF ph = "new" THEN Start(it)
-               ELSE [H |-> H, L |-> L, work |-> work, err |-> err, stat |-> stat]
-         S  == Run(S0, Code(it), Imgs[it[1]], Grain)
-         fin == S.work = {} \/ S.err # <<>>
-     IN  /\ it' = it
-         /\ ph' = IF fin THEN "done" ELSE "run"
-         /\ err' = S.err
-         /\ stat' = S.stat
-         /\ work' = S.work
-         \* a finished, clean analysis drops its tables (the state stays small); a failed one
-         \* keeps them so that the counterexample shows the heights and locals reached
-         /\ H' = IF fin /\ S.err = <<>> THEN <<>> ELSE S.H
-         /\ L' = IF fin /\ S.err = <<>> THEN <<>> ELSE S.L
-         /\ fin /\ S.err # <<>> =>
-              PrintT(<<"VIOL", ToJson(Where(it) @@ S.err[1] @@
-                        [op |-> IF S.err[1].pc < Len(Code(it)) /\ S.err[1].pc >= 0
-                                THEN Code(it)[S.err[1].pc + 1].op ELSE "exit"])>>)
-         /\ fin /\ S.err = <<>> =>
-              PrintT(<<"STAT", it[1], it[2] - 1, S.stat.steps, S.stat.joins, S.stat.ldiff,
-                       Cardinality(S.stat.tails), IF S.stat.branch THEN 1 ELSE 0>>)
+  \/ /\ st.ph = "root"
+     /\ \E i \in AllItems : st' = [st EXCEPT !.it = i, !.ph = "new"]
+  \/ /\ st.ph \in {"new", "run"}
+     /\ st' = Advance(st)
 
-Spec == Init /\ [][Next]_vars
+Spec == Init /\ [][Next]_st
 
 (***************************************************************************)
 (* The C07 clauses (and C16's static clause), one invariant per clause.    *)
 (***************************************************************************)
-Is(rule) == err # <<>> /\ err[1].rule = rule
+Is(rule) == st.err # <<>> /\ st.err[1].rule = rule
 NoUnderflow       == ~Is("underflow")        \* the stack never underflows
 JumpsInside       == ~Is("jump_range")       \* jumps stay inside the function
 IndicesInRange    == ~Is("index_range") /\ ~Is("type_index") /\ ~Is("operand")
